@@ -147,6 +147,10 @@ def generate(ctx):
         fixed = _coords(rng, nf, cls, scale)
         mobile0 = _coords(rng, nm, cls, scale)
         mobile = _coords(rng, nm, cls, scale)
+        if cls in ("lattice2", "lattice1") and rng.random() < 0.35:
+            # construction molecules on lattice sites, the configuration evaluated OFF the lattice (what the search does
+            # with integer input: `mol2_positions + displacement`): see `_run` for why (seed C08-12)
+            mobile = [[c + rng.choice([0.25, -0.5, 0.375, 0.0625 * rng.randint(1, 15)]) for c in p] for p in mobile]
         if cls == "float" and rng.random() < 0.2:
             # evaluation configuration close to the fixed one (the regime the search ends in)
             mobile = [[c + rng.gauss(0, 0.05 * scale) for c in fixed[rng.randrange(nf)]] for _ in range(nm)]
@@ -263,10 +267,22 @@ def _arr(pts):
     return a
 
 
+COUNT_INT = [0]
+
+
 def _run(fixed, mobile0, mobile, restr, restr_as):
     """construct + call the real thing; returns dict(value|error, stage, calc)"""
     from gaddlemaps._backend import Chi2Calculator
     F, M0, M = _arr(fixed), _arr(mobile0), _arr(mobile)
+    if F.size and M0.size and np.array_equal(F, np.round(F)) and np.array_equal(M0, np.round(M0)) \
+            and np.abs(F).max() < 1e9 and np.abs(M0).max() < 1e9:
+        # molecules on integer lattice sites are handed over as INTEGER arrays (what `np.array([[0, 0, 0], [1, 0, 0]])`
+        # gives, and what the repository's own tests pass); the configuration evaluated later is what it is (seed C08-12:
+        # the dtype of the construction arrays remembered and imposed on every configuration evaluated afterwards)
+        F, M0 = F.astype(np.int64), M0.astype(np.int64)
+        F.flags.writeable = False
+        M0.flags.writeable = False
+        COUNT_INT[0] += 1
     if restr_as == "array" and restr:
         r = np.array(restr, dtype=int)
     else:
